@@ -140,6 +140,47 @@ def ensure(config='default', repo=REPO):
         lock.close()
 
 
+def ensure_fixture():
+    """facts for the positive-example crate /verif/fixtures/pos (analysed on every run)"""
+    os.makedirs(BUILD, exist_ok=True)
+    lock = open(os.path.join(BUILD, '.lock'), 'w')
+    fcntl.flock(lock, fcntl.LOCK_EX)
+    try:
+        build_driver()
+        fx = os.path.join(VERIF, 'fixtures', 'pos')
+        h = hashlib.sha256()
+        for rel in ('Cargo.toml', 'src/lib.rs'):
+            with open(os.path.join(fx, rel), 'rb') as f:
+                h.update(f.read())
+        with open(DRV_BIN, 'rb') as f:
+            h.update(hashlib.sha256(f.read()).digest())
+        out = os.path.join(BUILD, 'facts', 'fixture-%s' % h.hexdigest()[:20])
+        if os.path.exists(os.path.join(out, '.ok')):
+            os.utime(out, None)
+            return out
+        if os.path.exists(out):
+            shutil.rmtree(out)
+        os.makedirs(out)
+        tgt = os.path.join(BUILD, 'target-fixture')
+        shutil.rmtree(os.path.join(tgt, 'debug', '.fingerprint'), ignore_errors=True)
+        env = dict(os.environ)
+        env.update({'CARGO_NET_OFFLINE': 'true', 'CARGO_TARGET_DIR': tgt, 'RUSTC_WORKSPACE_WRAPPER': DRV_BIN,
+                    'LD_LIBRARY_PATH': nightly_sysroot() + '/lib', 'RUSTFLAGS': '-Awarnings', 'ACBDRV_OUT': out})
+        env.pop('RUSTC_WRAPPER', None)
+        p = subprocess.run(['cargo', '+nightly', 'check', '--offline', '-q'], cwd=fx, env=env, stdout=subprocess.PIPE,
+                           stderr=subprocess.STDOUT, text=True)
+        if p.returncode != 0 or not [f for f in os.listdir(out) if f.endswith('.jsonl')]:
+            sys.stderr.write(p.stdout[-3000:])
+            shutil.rmtree(out, ignore_errors=True)
+            raise RuntimeError('fixture crate could not be analysed')
+        with open(os.path.join(out, '.ok'), 'w') as f:
+            f.write('fixture\n')
+        return out
+    finally:
+        fcntl.flock(lock, fcntl.LOCK_UN)
+        lock.close()
+
+
 def _prune(root, keep, max_dirs=8):
     ds = [os.path.join(root, d) for d in os.listdir(root)]
     ds = [d for d in ds if os.path.isdir(d) and d != keep]
